@@ -357,6 +357,7 @@ func (m *Machine) runPath(hp *ssa.Package, fn *ssa.Function, res *result) (compl
 	m.schedTrace = nil
 	m.hookTrace = nil
 	m.hookOnly = false
+	m.atomicPoints = false
 	m.fsEvents = nil
 	m.osst = nil
 	m.osEvents = nil
